@@ -1596,20 +1596,63 @@ func ruleHS1(c *Ctx) *rule {
 	sl.objFlow = true
 	dres := sl.run(digestVals...)
 	n := 0
+	// an accumulator is a loop-carried slice (a phi of the loop header) or, when the variable is captured by a closure (the
+	// comparison function of sort.Slice), a local cell that is stored inside the loop: its loads after the loop are the slice
+	type accumulator struct {
+		root  ssa.Value
+		name  string
+		seeds []ssa.Value
+	}
+	var accums []accumulator
 	for _, acc := range accs {
-		if !dres.has(acc) {
-			continue
-		}
-		n++
 		name := acc.Comment
 		if name == "" {
 			name = acc.Name()
 		}
-		key := fmt.Sprintf("%s accumulator %s", fname(t.fn), name)
+		accums = append(accums, accumulator{acc, name, []ssa.Value{acc}})
+	}
+	for _, b := range t.fn.Blocks {
+		for _, in := range b.Instrs {
+			cell, ok := in.(*ssa.Alloc)
+			if !ok {
+				continue
+			}
+			if _, isSlice := cell.Type().Underlying().(*types.Pointer).Elem().Underlying().(*types.Slice); !isSlice {
+				continue
+			}
+			storedInLoop := false
+			var loads []ssa.Value
+			for _, ref := range valueReferrers(cell) {
+				switch x := ref.(type) {
+				case *ssa.Store:
+					if x.Addr == ssa.Value(cell) && loop.body[x.Block()] {
+						storedInLoop = true
+					}
+				case *ssa.UnOp:
+					if x.Op == token.MUL && !loop.body[x.Block()] {
+						loads = append(loads, x)
+					}
+				}
+			}
+			if storedInLoop {
+				accums = append(accums, accumulator{cell, cell.Comment, loads})
+			}
+		}
+	}
+	for _, ac := range accums {
+		acc := ac.root
+		if !dres.has(acc) {
+			continue
+		}
+		n++
+		key := fmt.Sprintf("%s accumulator %s", fname(t.fn), ac.name)
 		// consumers of the accumulator after the loop that are in the digest slice
 		var consumers []ssa.Instruction
 		var sorts []*ssa.Call
-		aliases := map[ssa.Value]bool{acc: true}
+		aliases := map[ssa.Value]bool{}
+		for _, s := range ac.seeds {
+			aliases[s] = true
+		}
 		grow := true
 		for grow {
 			grow = false
@@ -1653,7 +1696,7 @@ func ruleHS1(c *Ctx) *rule {
 			}
 		}
 		if len(consumers) == 0 {
-			r.undecided(key, c.ipos(acc), "cannot find where the accumulator is consumed on the way to the digest")
+			r.undecided(key, c.pos(acc.Pos()), "cannot find where the accumulator is consumed on the way to the digest")
 			continue
 		}
 		if len(sorts) == 0 {
